@@ -32,6 +32,27 @@ KERNELS = [
          c_header="int K_round_float(const float x)", loops=0, rules=[(r"static_cast<int>\(", "CAST(int, ", 2)]),
 ]
 
+# ---- exam information: the radionuclide of an Interfile header (reader side) ----
+KERNELS += [
+    dict(name="K_radionuclide_ctor", file="src/buildblock/Radionuclide.cxx", cxx_name="Radionuclide::Radionuclide(name, energy, branching_ratio, half_life, modality) (member-initialiser list)",
+         func=r"Radionuclide::Radionuclide\(\s*const std::string& rname, float renergy, float rbranching_ratio, float rhalf_life, ImagingModality rmodality\)",
+         init_list=True, c_header="void K_radionuclide_ctor(struct RN* self, const int rname, float renergy, float rbranching_ratio, float rhalf_life, int rmodality)", loops=0, rules=[]),
+    dict(name="K_ifh_radionuclide", file="src/IO/InterfileHeader.cxx", cxx_name="InterfileHeader::post_processing: radionuclide block (statement kernel)",
+         func=r"InterfileHeader::post_processing\(\)", span=(r"RadionuclideDB radionuclide_db;", r"this->exam_info_sptr->set_radionuclide\(radionuclide\);"),
+         c_header="void K_ifh_radionuclide(struct IFH* self, const _Bool is_spect)", loops=0,
+         rules=[(r"RadionuclideDB radionuclide_db;", "", 1),
+                (r"const std::string rn_name = !this->radionuclide_name\[0\]\.empty\(\) \? this->radionuclide_name\[0\] : this->isotope_name;",
+                 "const int rn_name = !(self->radionuclide_name0 == NAME_EMPTY) ? self->radionuclide_name0 : self->isotope_name;", 1),
+                (r"auto radionuclide = radionuclide_db\.get_radionuclide\(exam_info_sptr->imaging_modality, rn_name\);",
+                 "struct RN radionuclide; K_db_get_radionuclide(&radionuclide, self->imaging_modality, rn_name);", 1),
+                (r"radionuclide\.get_half_life\(false\)", "radionuclide.half_life", 1),
+                (r"radionuclide = Radionuclide\(", "K_radionuclide_ctor(&radionuclide, ", 1),
+                (r"rn_name\.empty\(\) \? \"Unknown\" : rn_name", "(rn_name == NAME_EMPTY) ? NAME_UNKNOWN : rn_name", 1),
+                (r"(?<![\w>.])radionuclide_(branching_ratio|half_life)\[0\]", r"self->radionuclide_\1_0", 2),
+                (r"this->exam_info_sptr->imaging_modality", "self->imaging_modality", 1),
+                (r"this->exam_info_sptr->set_radionuclide\(radionuclide\);", "self->exam_radionuclide = radionuclide;", 1)]),
+]
+
 TYPES = ["schar", "uchar", "short", "ushort", "int", "uint"]
 CHK = ["--signed-overflow-check", "--div-by-zero-check", "--bounds-check", "--pointer-check", "--conversion-check", "--float-overflow-check", "--nan-check"]
 
@@ -59,6 +80,13 @@ def jobs(tier, gen_dir):
                        flags=CHK, no_base_flags=True, defines=dict(d, C10_TINY=None), params={"output type": t, "domain": "tiny"}, min_obligations=3, timeout=600, backend=BE))
     out.append(Job("c10/K_round_float", HARNESS, "h_K_round_float", enforce="K_round_float", kernels=["K_round_float"], flags=CHK, no_base_flags=True,
                    min_obligations=3, timeout=300, backend="sat"))
+    out.append(Job("c10/K_radionuclide_ctor", HARNESS, "h_K_radionuclide_ctor", enforce="K_radionuclide_ctor", kernels=["K_radionuclide_ctor"], flags=CHK, no_base_flags=True,
+                   min_obligations=3, timeout=300, backend="sat"))
+    out.append(Job("c10/K_ifh_radionuclide", HARNESS, "h_K_ifh_radionuclide", enforce="K_ifh_radionuclide", replace=["K_radionuclide_ctor", "K_db_get_radionuclide"],
+                   kernels=["K_ifh_radionuclide"], flags=CHK, no_base_flags=True, min_obligations=3, timeout=300, backend="sat", replay="radionuclide"))
+    out.append(Job("c10/canary/K_ifh_radionuclide", HARNESS, "h_K_ifh_radionuclide", enforce="K_ifh_radionuclide", replace=["K_radionuclide_ctor", "K_db_get_radionuclide"],
+                   kernels=["K_ifh_radionuclide"], kind="canary", defines={"CANARY_K_ifh_radionuclide": None}, expect_fail=r"K_ifh_radionuclide\.postcondition",
+                   no_base_flags=True, timeout=300))
     out.append(Job("c10/canary/K_find_scale_factor", HARNESS, "h_K_find_scale_factor", enforce="K_find_scale_factor", kernels=["K_find_scale_factor"], kind="canary",
                    defines={"CANARY_K_find_scale_factor": None}, expect_fail=r"K_find_scale_factor\.postcondition", no_base_flags=True, timeout=300))
     out.append(Job("c10/canary/lemma_no_overflow", HARNESS, "h_lemma_real", kind="canary", kernels=[], defines={"LEMMA_CANARY": None}, flags=[], no_base_flags=True,
@@ -69,7 +97,7 @@ def jobs(tier, gen_dir):
 TRUSTED = ["std::max_element / std::min_element deliver the largest / smallest input value (mx, mn are parameters of the kernel)",
            "input element type float, scale factor type float (the instantiation used by the image writers); IEEE-754 round-to-nearest"]
 ASSUMPTIONS = []
-UNDECIDED_CLAUSES = ["file and header paths (Interfile keyword round trip, voxel positions, exam information, truncated data files)",
+UNDECIDED_CLAUSES = ["file and header paths (Interfile keyword parsing and writing, voxel positions, exam information other than the reader's radionuclide block, truncated data files)",
                      "dynamic / parametric containers", "float output types (copied, no quantisation)"]
 
 
@@ -83,6 +111,18 @@ import subprocess
 
 
 def replay(job, o, workroot, repo):
+    if "radionuclide" in job.name:
+        from vlib import native
+        exe = os.path.join(workroot, "c10_rn_replay")
+        if not os.path.exists(exe):
+            exe, info = native.build(repo, os.path.join(VERIF, "replay", "c10_rn.cpp"), exe)
+            if not exe:
+                return {"status": "unavailable", "detail": "replay driver did not build: " + info}
+        os.environ.setdefault("STIR_CONFIG_DIR", os.path.join(repo, "src/config"))
+        st, detail = native.run(exe, [workroot], timeout=300)
+        if st == "confirmed":
+            return {"status": "confirmed", "detail": detail, "command": "c10_rn_replay <dir>", "from_verifier_counterexample": False}
+        return {"status": "not-reproduced", "detail": "c10_rn_replay: three nuclides written to Interfile and read back (" + str(detail)[:200] + ")"}
     exe = os.path.join(workroot, "c10_replay")
     if not os.path.exists(exe):
         cmd = ["g++", "-std=c++17", "-g", "-O1", "-DNDEBUG", "-fsanitize=float-cast-overflow,signed-integer-overflow", "-fno-sanitize-recover=all",
